@@ -112,6 +112,11 @@ func (eng *Engine) verifyFunc(key string) *FuncReport {
 			eng.bindingErrors = append(eng.bindingErrors, fmt.Sprintf("%s: assert after call %s#%d never met that call (%s:%d)", key, pa.Callee, pa.Ord, pa.Clause.File, pa.Clause.Line))
 		}
 	}
+	for j, ps := range c.PointSets {
+		if !ex.pointSetHit[j] && ps.Ord >= 0 {
+			eng.bindingErrors = append(eng.bindingErrors, fmt.Sprintf("%s: ghostset after call %s#%d never met that call", key, ps.Callee, ps.Ord))
+		}
+	}
 	rep.NAssumeEnd = len(ex.assumes)
 	rep.Obligations = ex.obligations
 	rep.Warnings = ex.warnings
